@@ -696,3 +696,9 @@ mod tests {
         assert_eq!(config.get_log_addr(), 0);
     }
 }
+
+// Verification harnesses (Kani); the sources live outside this repository.
+#[cfg(feature = "verif")]
+mod verif {
+    include!(concat!(env!("VHOST_VERIF_DIR"), "/harness/vhost_backend.rs"));
+}
